@@ -220,17 +220,23 @@ impl<C: ConfigurationAccess> PciRoot<C> {
         device_function: DeviceFunction,
         bar_index: u8,
     ) -> Result<Option<BarInfo>, PciError> {
+        let bar_orig = self
+            .configuration_access
+            .read_word(device_function, BAR0_OFFSET + 4 * bar_index);
+        let io_space = bar_orig & 0x00000001 == 0x00000001;
+        // A 64-bit memory BAR needs a second register, so it can't start in the last slot. Check
+        // this before changing anything, so that an error leaves the device untouched.
+        let is_64bit = bar_orig & 0b111 == 0b100;
+        if is_64bit && bar_index >= 5 {
+            return Err(PciError::InvalidBarType);
+        }
+
         // Disable address decoding while sizing the BAR.
         let (_status, command_orig) = self.get_status_command(device_function);
         let command_disable_decode = command_orig & !(Command::IO_SPACE | Command::MEMORY_SPACE);
         if command_disable_decode != command_orig {
             self.set_command(device_function, command_disable_decode);
         }
-
-        let bar_orig = self
-            .configuration_access
-            .read_word(device_function, BAR0_OFFSET + 4 * bar_index);
-        let io_space = bar_orig & 0x00000001 == 0x00000001;
 
         // Get the size of the BAR.
         self.configuration_access.write_word(
@@ -244,10 +250,7 @@ impl<C: ConfigurationAccess> PciRoot<C> {
         );
 
         // Read the upper 32 bits of 64-bit memory BARs.
-        let (address_top, size_top) = if bar_orig & 0b111 == 0b100 {
-            if bar_index >= 5 {
-                return Err(PciError::InvalidBarType);
-            }
+        let (address_top, size_top) = if is_64bit {
             let bar_top_orig = self
                 .configuration_access
                 .read_word(device_function, BAR0_OFFSET + 4 * (bar_index + 1));
